@@ -467,3 +467,95 @@ def _(c):
     c.ensure("events_exist", len(evs) >= 1 if kind == "iss" else True)
     c.ensure("agrees_with_independent_cone", ok_t)
     c.ensure("label", ok_l)
+
+
+# ---------------------------------------------------------------------------------------------
+# the stream an iteration yields: events before the sample that closes their interval
+# ---------------------------------------------------------------------------------------------
+
+def _stream_contract(who, funcs):
+    from contracts.c08_iteration import listener_stream
+
+    @contract("C10", f"stream.{who}", funcs=funcs, level="proof",
+              assumptions=["listen(sample) abstracted: returns 0..2 events found between the previous sample and this one (C10.check / C10.bisect: each event is dated inside that interval)",
+                           "propagate(date) returns a state dated `date`"])
+    def _(c):
+        """proved: the stream an iteration yields is, for each sample in order, the events listen() found since the previous sample (in the order listen() gave them)
+        followed by the sample itself (or its copy) -- so every event lies between its two bracketing samples and the stream is chronological; nothing else is yielded"""
+        if not c.symbolic:
+            return
+        log, out, samples, L, ev, mode = listener_stream(c, "C10", who)
+        want = []
+        for s in samples:
+            want.extend(ev.get(id(s), []))
+            want.append(s)
+
+        def same(a, b):
+            return a is b or (not isinstance(a, tuple) and not isinstance(b, tuple) and getattr(a, "parent", None) is b)
+        c.ensure("stream_is_events_then_sample", len(out) == len(want) and all(same(a, b) for a, b in zip(out, want)))
+        if who == "ephem" and mode == "own_step":
+            c.ensure("recorded_states_are_not_handed_out", all(not any(o is s for s in samples) for o in out))
+    return _
+
+
+_stream_contract("ephem", ["beyond.orbits.ephem:Ephem.iter"])
+_stream_contract("analytical", ["beyond.propagators.base:AnalyticalPropagator.iter"])
+
+
+def _grid_modes(tier, rng):
+    """orbits {iss, molniya} x sources {ephemeris, numerical propagator (rk4), analytical Kepler} x the way the iteration is driven {the source's own step, an explicit list of
+    dates, start/stop/step} x listener sets {node + apside, anomaly}"""
+    for o in (0, 1):
+        for p in (0, 1, 2):
+            for m in (0, 1, 2):
+                for ls in (0, 1):
+                    yield {"orbit": o, "src": p, "mode": m, "lset": ls}
+
+
+@contract("C10", "native.modes", funcs=["beyond.orbits.ephem:Ephem.iter", "beyond.propagators.keplernum:KeplerNum._iter", f"{BASE}:AnalyticalPropagator.iter"], grid=_grid_modes, level="bounded")
+def _(c):
+    """bounded: however the iteration is driven (own step, explicit dates, start/stop/step), on an ephemeris, a numerical and an analytical propagator: the stream is
+    chronological, every event lies between the two samples that bracket it in the stream, events are found (over 0.95 orbit), and a second pass with the same listener
+    objects -- also one over other dates -- gives what fresh listeners give"""
+    from beyond.dates import timedelta
+    from beyond.orbits import Orbit
+    from beyond.propagators.listeners import NodeListener, ApsideListener, AnomalyListener
+    from beyond.propagators.keplernum import KeplerNum
+    from beyond.env.solarsystem import get_body
+    kind = ["iss", "molniya"][c.integer("orbit")]
+    which = ["ephem", "num", "kepler"][c.integer("src")]
+    mode = ["own", "dates", "range"][c.integer("mode")]
+    c.require(not (which == "kepler" and mode == "own"))
+    src, orb, d0, T = _mk_orbit(kind, "ephem" if which == "ephem" else "kepler")
+    h = 60.0 if kind == "iss" else 120.0
+    if which == "num":
+        src = Orbit(np.asarray(orb, dtype=float), d0, "cartesian", "EME2000", KeplerNum(timedelta(seconds=h), get_body("Earth"), method="rk4"))
+    mk = [lambda: [NodeListener(), ApsideListener()], lambda: [AnomalyListener(1.0)]][c.integer("lset")]
+    span = 0.95 * T
+
+    def run(listeners, t0=0.0):
+        if mode == "own":
+            kw = dict(listeners=listeners) if which == "ephem" else dict(stop=d0 + timedelta(seconds=span), listeners=listeners)
+        elif mode == "dates":
+            n = int(span // (2.5 * h))
+            kw = dict(dates=[d0 + timedelta(seconds=t0 + 2.5 * h * k) for k in range(n)], listeners=listeners)
+        else:
+            kw = dict(start=d0 + timedelta(seconds=t0), stop=d0 + timedelta(seconds=span), step=timedelta(seconds=2.5 * h), listeners=listeners)
+        return list(src.iter(**kw))
+    key = lambda o: (o.date._d, round(o.date._s, 6), o.event.info if o.event else None)
+    used = mk()
+    out1 = run(used)
+    dates = [o.date for o in out1]
+    c.ensure("chronological", all(a <= b for a, b in zip(dates, dates[1:])))
+    ok = True
+    for k, o in enumerate(out1):
+        if o.event:
+            prev = next((p for p in reversed(out1[:k]) if not p.event), None)
+            nxt = next((p for p in out1[k + 1:] if not p.event), None)
+            ok = ok and prev is not None and nxt is not None and prev.date <= o.date <= nxt.date
+    c.ensure("event_between_its_bracketing_samples", ok)
+    c.ensure("events_found", any(o.event for o in out1))
+    c.ensure("second_pass_same_listeners", [key(o) for o in run(used)] == [key(o) for o in out1])
+    if mode != "own":
+        # another pass, starting a third of an orbit later: the listeners remember the end of the previous pass unless they are reset
+        c.ensure("shifted_pass_same_as_fresh_listeners", [key(o) for o in run(used, T / 3)] == [key(o) for o in run(mk(), T / 3)])
